@@ -142,7 +142,7 @@ def pr(e):
         elif b[0] == "yield":
             body = "yield %s" % pr(b[1]) + (" into %s" % b[2] if b[2] else "")
         else:
-            body = "yield %s: %s" % (pr(b[1]), pr(b[2]))
+            body = "yield %s: %s" % (pr(b[1]), pr(b[2])) + (" into %s" % b[3] if len(b) > 3 and b[3] else "")
         return "(for (%s) %s)" % ("; ".join(cl), body)
     if t == "break":
         return "(%s%s)" % (" ".join(["break"] * (e[1] + 1)), " " + pr(e[2]) if e[2] is not None else "")
@@ -509,6 +509,10 @@ class Interp:
             self.err()
         if name == "count":
             return sum(1 for x in xs if truthy(x))
+        if name == "any":
+            return int(any(truthy(x) for x in xs))
+        if name == "all":
+            return int(all(truthy(x) for x in xs))
         if name == "sum":
             if not all(isinstance(x, int) for x in xs):
                 self.err()
@@ -530,19 +534,35 @@ class Interp:
         acc = []
         kv = NDict()
 
+        per_key, decided = {}, set()
+
+        def decisive(fold, v):
+            return fold == "first" or (fold == "any" and truthy(v)) or (fold == "all" and not truthy(v))
+
         def run_body(scope):
             if body[0] == "do":
                 self.ev(body[1], scope)
             elif body[0] == "yield":
                 acc.append(self.ev(body[1], scope))
-                if body[2] == "first":
-                    raise _StopFold()    # `into first` is a short-circuiting fold (tests: short_circuiting_folds)
+                if decisive(body[2], acc[-1]):
+                    raise _StopFold()    # first / any / all are short-circuiting folds (tests: short_circuiting_folds)
             else:
                 key = self.ev(body[1], scope)
-                val = self.ev(body[2], scope)
                 if not isinstance(key, (int, str)):
                     raise OpaqueReached()
-                kv.set(key, val)
+                fold = body[3] if len(body) > 3 else None
+                if fold is None:
+                    kv.set(key, self.ev(body[2], scope))
+                    return
+                # yield k: v into f folds per key; once a key's short-circuiting fold is decided, later values for that key
+                # are not even evaluated (observed), the other keys go on
+                tag = (type(key).__name__, key)
+                if tag in decided:
+                    return
+                val = self.ev(body[2], scope)
+                per_key.setdefault(tag, (key, []))[1].append(val)
+                if decisive(fold, val):
+                    decided.add(tag)
 
         def rec(k, scope):
             if k == len(clauses):
@@ -607,6 +627,9 @@ class Interp:
             if body[2]:
                 return self.into(body[2], acc)
             return acc
+        if len(body) > 3 and body[3]:
+            for key, vals in per_key.values():
+                kv.set(key, self.into(body[3], vals))
         return kv
 
 
